@@ -50,6 +50,13 @@ add("f_null_paths", FFI, "verif_kani", ["C20"], cap_s=180, group="ffi_l0",
     bounds="null-pointer paths only")
 
 
+for m, tier, cap in ((1, "quick", 600), (2, "quick", 900)):
+    add("f_on_events_m%d" % m, FFI, "verif_kani", ["C20"], tier=tier, cap_s=cap, mem_gb=16, group="f_on_events_m%d" % m, cls="B",
+        encodes=["maybenot_on_events", "MaybenotFramework::on_events", "convert_event", "convert_action",
+                 "Framework::trigger_events / process_event (real)"],
+        bounds="%d machines, one global event with any id, every machine step returns ANY well-formed action; output buffer of "
+               "exactly num_machines slots between two canaries; Instant::now stubbed to any instant" % m)
+
 # ---------------------------------------------------------------- C06 (state.rs)
 for k, cap, tier in ((1, 120, "quick"), (2, 240, "quick"), (3, 900, "thorough"), (4, 2400, "thorough")):
     add("k_sample_state_k%d" % k, MB, "state::verif_kani", ["C06"], tier=tier, cap_s=cap,
@@ -107,6 +114,14 @@ add("k_below_padding_own", MB, FW, [], cap_s=900, group="fw_l0_pad_own", owner="
 add("k_below_blocking", MB, FW, [], cap_s=300, group="fw_l0_block", owner="C01",
     encodes=["Framework::below_limit_blocking", "Framework::below_action_limits"],
     bounds="virtual clock: any u64 instants in any order, any accumulated durations, fractions any real in [0,1]")
+add("k_below_padding_small", MB, FW, ["C02", "C07", "C05"], cap_s=900, mem_gb=16, group="fw_l0_pad_small", owner="C01",
+    encodes=["Framework::below_limit_padding", "Framework::below_action_limits"],
+    bounds="any budget, any state limit, both fractions any real in [0,1]; packet counts case-split over all 27 combinations of "
+           "own paddings 0..=2, normal packets 0..=2, other machines' paddings 0..=2 (concrete operands fold the f64 quotients)")
+add("k_below_blocking_small", MB, FW, ["C03", "C07", "C05"], cap_s=900, mem_gb=16, group="fw_l0_block_small", owner="C01",
+    encodes=["Framework::below_limit_blocking", "Framework::below_action_limits"],
+    bounds="any budget, any state limit, both fractions any real in [0,1], replace and active any; accumulated blocking 0..=2 us, "
+           "ongoing 0..=2 us, elapsed since start 0..=3 us (36 combinations; virtual clock, backwards steps = 0 elapsed)")
 add("k_below_other", MB, FW, ["C07", "C04", "C05"], cap_s=120, group="fw_l0_other", owner="C01",
     encodes=["Framework::below_action_limits"], bounds="timer / cancel / no action, any limit")
 
@@ -139,7 +154,7 @@ EVK = ["NormalRecv", "PaddingRecv", "TunnelRecv", "NormalSent", "PaddingSent", "
 add("l2_m0", MB, FW + "::l2", L2_PROPS, tier="quick", cap_s=300, mem_gb=12, owner="C01", cls="B", group="l2_m0",
     kargs=["--no-assertion-reach-checks"], encodes=L2_ENC,
     bounds="one call, one fully symbolic event (10 kinds, any usize id), ZERO machines, any time")
-L2_QUICK = {"l2_m2_e3", "l2_m2_e4_i0", "l2_m2_e4_i1", "l2_m2_e4_iu", "l2_m2_e6", "l2_m2_e7", "l2_m2_e8_i1", "l2_m2_e9_iu"}
+L2_QUICK = {"l2_m2_e3", "l2_m2_e4_i1", "l2_m2_e4_iu", "l2_m2_e6", "l2_m2_e7", "l2_m2_e8_i1"}
 for m, tier0, cap in ((1, "thorough", 600), (2, "quick", 900), (3, "thorough", 2400)):
     for k in range(10):
         if k in (4, 8, 9):
@@ -179,13 +194,17 @@ add("s_peek_blocked", SIM, SK, ["C16"], cap_s=300, mem_gb=12, group="s_peek", ow
     encodes=["queue_peek::peek_blocked_exp"], bounds="both sides' blocking expiry arbitrary (at or after now)")
 
 
-add("s_stack_send_recv", SIM, SK, ["C14", "C15"], cap_s=600, mem_gb=16, group="s_stack_sr", owner="C19",
-    encodes=["network::sim_network_stack (NormalSent / TunnelSent / TunnelRecv)", "NetworkBottleneck::sample", "WindowCount::add", "SimQueue::push_sim"],
-    bounds="one event of the three kinds, any side, any padding flag, empty queue, any network delay up to 10 s, no machines, "
-           "no integration delays, fresh rate window")
+for nm, what in (("normal_sent", "NormalSent"), ("tunnel_sent", "TunnelSent"), ("tunnel_recv", "TunnelRecv")):
+    add("s_stack_" + nm, SIM, SK, ["C14", "C15"], cap_s=600, mem_gb=20, group="s_stack_" + nm, owner="C19",
+        encodes=["network::sim_network_stack (%s)" % what, "NetworkBottleneck::sample", "WindowCount::add", "SimQueue::push_sim"],
+        bounds="one %s event, any side, any padding flag, empty queue, any network delay up to 10 s, no machines, "
+               "no integration delays, fresh rate window" % what)
 add("s_stack_padding_sent", SIM, SK, ["C15", "C16"], cap_s=900, mem_gb=16, group="s_stack_pad", owner="C19",
     encodes=["network::sim_network_stack (PaddingSent)", "SimQueue::peek_blocking / pop_blocking", "delay::agg_delay_on_padding_bypass_replace"],
     bounds="one PaddingSent with any bypass/replace flags, zero or one normal packet queued on that side, any blocking state")
+add("s_bottleneck_sample", SIM, "network::verif_kani", ["C14", "C19"], cap_s=900, mem_gb=16, group="s_bottleneck_sample", owner="C19",
+    encodes=["NetworkBottleneck::sample", "WindowCount::add"],
+    bounds="two packets at any two ordered instants on one side, limit >= 2, window 1 s (capacity-4 buffers)")
 add("s_bottleneck_new", SIM, SK, ["C19"], cap_s=300, mem_gb=12, group="s_bottleneck_new",
     encodes=["NetworkBottleneck::new", "WindowCount::new"], bounds="every packets-per-second limit >= 1 (network and trace-derived)")
 add("s_pick_next_two", SIM, SK, ["C14", "C15", "C19"], cap_s=1200, mem_gb=16, group="s_pick_next_two", owner="C19",
